@@ -9,6 +9,8 @@
 //	      sender: transport MTU, IsFragmentationEnabled, IsIncomingFaceIndicationEnabled,
 //	      congestion marking on/off with threshold <thr>, nextSequence preset to <seq>;
 //	      receiver: IsReassemblyEnabled = <reasm>                                   => ok
+//	mtu <n>            LinkService.SetMTU(n) on the LIVE sending face (what management faces/update does) => ok
+//	opt <frag> <ifi>   SetOptions on the live sending face (fragmentation, incoming-face indication)   => ok
 //	tx <id> <pkthex> <tokhex|-> <itok> <mark|-> <inface|-> <cong>
 //	      sendPacket(OutPkt{Pkt{Raw, PitToken: itok?, CongestionMark: mark}, PitToken: tok,
 //	      InFace}) with the send queue reported above (cong=1) / below the threshold
@@ -189,6 +191,21 @@ func exec(op string) string {
 			sb.WriteString(common.Hex(x))
 		}
 		return sb.String()
+	case "mtu": // management faces/update on a live face: LinkService.SetMTU
+		if w == nil || len(f) != 2 {
+			return "skip"
+		}
+		w.snd.SetMTU(common.Atoi(f[1]))
+		return "ok"
+	case "opt": // SetOptions on the live sending link service: fragmentation, incoming-face indication
+		if w == nil || len(f) != 3 {
+			return "skip"
+		}
+		o := w.snd.Options()
+		o.IsFragmentationEnabled = b01(f[1])
+		o.IsIncomingFaceIndicationEnabled = b01(f[2])
+		w.snd.SetOptions(o)
+		return "ok"
 	case "rx":
 		if w == nil || len(f) != 3 {
 			return "skip"
@@ -317,6 +334,41 @@ func gen(g *common.Gen) {
 		}
 		var plans []plan
 		for m := 0; m < nmsg; m++ {
+			// reconfigure the LIVE face between sends: anything cached at construction is exposed
+			prevMtu := mtu
+			if m > 0 && r.Chance(1, 2) {
+				switch r.Intn(4) {
+				case 0:
+					mtu = r.Range(128, 400)
+				case 1: // a small step down / up
+					mtu += r.Range(-40, 40)
+				case 2:
+					mtu = common.Pick(r, mtuBoundary)
+				default: // halve or double
+					if r.Chance(1, 2) {
+						mtu /= 2
+					} else {
+						mtu *= 2
+					}
+				}
+				if mtu < 128 {
+					mtu = 128
+				}
+				if mtu > 9000 {
+					mtu = 9000
+				}
+				g.Op("mtu %d", mtu)
+				g.Stat("reconf-mtu")
+			}
+			if m > 0 && r.Chance(1, 5) {
+				if r.Chance(1, 3) {
+					frag = 1 - frag
+				} else {
+					ifi = 1 - ifi
+				}
+				g.Op("opt %d %d", frag, ifi)
+				g.Stat("reconf-options")
+			}
 			// header fields
 			tok := "-"
 			tokLen := 0
@@ -373,6 +425,14 @@ func gen(g *common.Gen) {
 			default:
 				size = r.Range(7, 2500)
 				g.Stat("size-random")
+			}
+			if prevMtu != mtu && r.Chance(1, 2) { // between the previous and the current MTU
+				lo, hi := prevMtu, mtu
+				if lo > hi {
+					lo, hi = hi, lo
+				}
+				size = r.Range(lo-over, hi)
+				g.Stat("size-between-old-and-new-mtu")
 			}
 			if size < 7 {
 				size = 7
